@@ -11,7 +11,9 @@ import json, os, re, shutil, subprocess, sys, time, hashlib
 
 ROOT = os.path.dirname(os.path.dirname(os.path.abspath(__file__)))
 SPEC = os.path.join(ROOT, "spec")
-HARNESS = os.path.join(ROOT, "harness")
+# (VERIF_HARNESS: a scratch copy of the harness bound to a scratch copy of the crate - used by lib/seedcheck.sh only; the
+#  registered commands always build /verif/harness against /repo)
+HARNESS = os.environ.get("VERIF_HARNESS") or os.path.join(ROOT, "harness")
 OUT = os.path.join(ROOT, "out")
 EVID = os.path.join(ROOT, "evidence")
 VH = os.path.join(HARNESS, "target", "debug", "vh")
